@@ -22,6 +22,7 @@ import (
 
 	"github.com/glowlabs-org/gca-backend/client"
 
+	"verifharness/lib/drv"
 	"verifharness/lib/refenc"
 )
 
@@ -44,6 +45,7 @@ type rogue struct {
 	ln      net.Listener // nil: closed port (every dial is refused)
 	fd      int          // closed port: a bound, never listening socket that keeps the port number ours
 	Port    uint16
+	udp     *drv.UDPSink // this server's own UDP port
 	Key     refenc.Key
 	mu      sync.Mutex
 	ids     map[uint32]bool // short ids our client may use; other requests come from foreign processes
